@@ -17,15 +17,15 @@ NA = {
  "C20": "schema validation totality/completeness: pure; the cached error list is a memo of a pure function.",
 }
 INFO = {
- "C02": ("§4-C02", "seeded search over server-lifetime histories (4-12 operations on shared schema/document objects, allocator churn) of generated requests with synchronous resolvers, each response and each resolver argument dict compared with an executable reference model written from the spec",
+ "C02": ("§4-C02", "seeded search over server-lifetime histories (4-12 operations on shared schema/document objects, schemas derived from them by extend_schema / lexicographic_sort_schema, allocator churn) of generated requests with synchronous resolvers, each response and each resolver argument dict compared with an executable reference model written from the spec",
          "deterministic simulation: seeded history machine + reference-model differential (exploration, not exhaustive over inputs)"),
- "C03": ("§4-C03", "seeded search over completion schedules: each generated scenario (1-3 concurrent requests, sync/awaitable mix incl. list items, type resolvers, async iterators, injected resolver faults) is executed by the reference model, by the real executor synchronously and by the real executor on a simulated event loop under several seeded schedules and simulated-allocator policies; data, nulled positions, well-formedness, exactly-once and mutation seriality are checked on every run",
+ "C03": ("§4-C03", "seeded search over completion schedules: each generated scenario (1-3 concurrent requests, sync/awaitable mix incl. list items, type resolvers, async iterators, injected resolver faults) is executed by the reference model, by the real executor synchronously and by the real executor on a simulated event loop under several seeded schedules and simulated-allocator policies; data, nulled positions, well-formedness, exactly-once and mutation seriality are checked on every run; for small scenarios (2-7 awaitables) all completion orders are walked (exact odometer, bounded)",
          "deterministic simulation: custom asyncio loop with seeded completion scheduler + simulated allocator, reference-model oracle"),
  "C04": ("§4-C04", "seeded search over schedules, consumer pull timing, early execution and queue capacity for generated @defer/@stream requests; payloads are merged by an independent merge function and compared with / refined against the reference model's non-incremental response",
          "deterministic simulation: seeded schedules + merge/refinement oracle against reference model"),
- "C05": ("§4-C05", "protocol monitor fed every payload of every simulated incremental run (end-to-end requests) and of synthetic work graphs driven directly through WorkQueue/IncrementalPublisher/StreamItemQueue under seeded event orders and failures",
+ "C05": ("§4-C05", "protocol monitor fed every payload of every simulated incremental run (end-to-end requests) and of synthetic work graphs driven directly through WorkQueue/IncrementalPublisher/StreamItemQueue under seeded event orders and failures; for small graphs (2-7 events) all event orders are walked under three knob settings (exact odometer, bounded)",
          "deterministic simulation: seeded event orders + online protocol monitor (sampling, not bounded-exhaustive)"),
- "C06": ("§4-C06", "seeded search over stop faults (aclose after k payloads, abort with reason at an arbitrary or state-triggered loop iteration, resolver/source failure, hanging externals) with quiescence-based liveness, leak, source-close and hook oracles evaluated on the simulated loop",
+ "C06": ("§4-C06", "seeded search over stop faults (aclose after k payloads, abort with reason at a seeded loop iteration, resolver/source failure, hanging externals; for selected units a stop-instant sweep forces the close / abort to every loop iteration of one schedule) with quiescence-based liveness, leak, source-close and hook oracles evaluated on the simulated loop",
          "deterministic simulation with fault injection: stop/abort/cancel at seeded instants, quiescence and leak oracles"),
  "C07": ("§4-C07", "seeded search over subscription sources (pull, async generator, push queue), event sequences, emission-vs-pull timing and source faults; each response compared with the reference model's execution for that event; order/count/termination checked over the recorded history",
          "deterministic simulation: seeded producer/consumer interleavings + per-event reference-model oracle"),
